@@ -32,6 +32,7 @@ struct Syms {
         // mh
         void *mh_init[3], *mh_update[3][5], *mh_finalize[3][5]; // [kind][family]
         void *mh_isal_init[3], *mh_isal_update[3], *mh_isal_finalize[3];
+        void *mh_pubbase_update[3], *mh_pubbase_finalize[3]; // deprecated public base-family entry points
         void **mh_disp_update[3], **mh_disp_finalize[3];
         // rolling
         void *roll_init, *roll_reset, *roll_run, *roll_isal_init, *roll_isal_reset, *roll_isal_run, *roll_maskgen, *roll_leg_run, *roll_leg_maskgen;
@@ -61,6 +62,8 @@ static void load_syms()
                         S.mh_update[k][f] = libsym(strfmt("_%s_update_%s", pre[k], mh_fams[f]).c_str());
                         S.mh_finalize[k][f] = libsym(strfmt("_%s_finalize_%s", pre[k], mh_fams[f]).c_str());
                 }
+                S.mh_pubbase_update[k] = libsym(strfmt("%s_update_base", pre[k]).c_str(), false);
+                S.mh_pubbase_finalize[k] = libsym(strfmt("%s_finalize_base", pre[k]).c_str(), false);
                 S.mh_isal_init[k] = libsym(strfmt("isal_%s_init", pre[k]).c_str());
                 S.mh_isal_update[k] = libsym(strfmt("isal_%s_update", pre[k]).c_str());
                 S.mh_isal_finalize[k] = libsym(strfmt("isal_%s_finalize", pre[k]).c_str());
@@ -443,7 +446,9 @@ struct StreamSim : Sim {
                         SlotGuard sg;
                         sg.set(S.mh_disp_update[k], S.mh_update[k][c.fam]);
                         rc = e.call(strfmt("isal_%s_update", kind_name[k]).c_str(), S.mh_isal_update[k], { U(c.ctx), U(buf), n });
-                } else
+                } else if (c.fam == 0 && (ci & 1) && S.mh_pubbase_update[k])
+                        rc = e.call(strfmt("%s_update_base", kind_name[k]).c_str(), S.mh_pubbase_update[k], { U(c.ctx), U(buf), n });
+                else
                         rc = e.call(strfmt("_%s_update_%s", kind_name[k], mh_fams[c.fam]).c_str(), S.mh_update[k][c.fam], { U(c.ctx), U(buf), n });
                 e.obs(0x400 + ci, (uint32_t) rc);
                 if ((uint32_t) rc != 0) {
@@ -477,6 +482,11 @@ struct StreamSim : Sim {
                                 rc = e.call("isal_mh_sha1_murmur3_x64_128_finalize", S.mh_isal_finalize[k], { U(c.ctx), U(dig), U(mur) });
                         else
                                 rc = e.call(strfmt("isal_%s_finalize", kind_name[k]).c_str(), S.mh_isal_finalize[k], { U(c.ctx), U(dig) });
+                } else if (c.fam == 0 && (ci & 1) && S.mh_pubbase_finalize[k]) {
+                        if (mur)
+                                rc = e.call("mh_sha1_murmur3_x64_128_finalize_base", S.mh_pubbase_finalize[k], { U(c.ctx), U(dig), U(mur) });
+                        else
+                                rc = e.call(strfmt("%s_finalize_base", kind_name[k]).c_str(), S.mh_pubbase_finalize[k], { U(c.ctx), U(dig) });
                 } else {
                         if (mur)
                                 rc = e.call(strfmt("_mh_sha1_murmur3_x64_128_finalize_%s", mh_fams[c.fam]).c_str(), S.mh_finalize[k][c.fam],
